@@ -26,7 +26,7 @@ if os.path.exists(cj) and os.path.getsize(cj):
     c = json.load(open(cj))
     out["confirmation"] = {
         "what_i_ran": "tools/seed_confirm.py %s in the scratch worktree /tmp/confirm: git apply patch.diff; cargo nextest run --workspace (the pinned baseline command) and comparison with BASELINE.json stable_pass; demo with the patch; git apply -R; demo without the patch" % ID,
-        "compiles": c.get("compiles"), "baseline_tests": c.get("baseline_tests"),
+        "suite": c.get("suite"), "compiles": c.get("compiles"), "baseline_tests": c.get("baseline_tests"),
         "baseline_tests_broken_by_patch": c.get("baseline_broken_by_patch"),
         "demo_with_patch_rc": c.get("demo_with_patch_rc"), "demo_without_patch_rc": c.get("demo_without_patch_rc"),
         "confirmed": c.get("confirmed")}
